@@ -10,6 +10,7 @@
 //!   keysend    spontaneous payment 0 -> 1 with custom TLVs
 //!   metadata   invoice payment 0 -> 1 with two custom TLVs (one empty)
 //!   mpp        2-part MPP 0 -> 1 over two parallel channels of different size (parts differ)
+//! (underpay2 additionally: reload point 3 = only the first MPP part has arrived.)
 //! Twin runs of the same deterministic schedule: A never reloads; B1 reloads the recipient while its
 //! PaymentClaimable event is still PENDING inside the manager; B2 reloads it after the event was
 //! handled. (All runs disconnect and reconnect the recipient at both points.) Compared, as `Debug`
@@ -195,8 +196,6 @@ const KINDS: [&str; 5] = ["underpay1", "underpay2", "keysend", "metadata", "mpp"
 /// reload: 0 = never, 1 = while PaymentClaimable is pending, 2 = after it was handled
 #[derive(Clone, Copy, Default)]
 struct Opts {
-	/// after the partial-MPP cut both runs re-apply `accept_underpaying_htlcs` to the recipient's channels
-	reapply: bool,
 	/// the final state also lists every channel's ChannelConfig
 	cfg_probe: bool,
 }
@@ -318,10 +317,6 @@ fn run(kind: usize, seed: u64, reload: u8, partial: bool, opts: Opts) -> Vec<Str
 		}
 		for p in peers.iter() {
 			reconnect(&nodes, recipient, *p);
-		}
-		if opts.reapply {
-			let upd = lightning::util::config::ChannelConfigUpdate { accept_underpaying_htlcs: Some(true), ..Default::default() };
-			let _ = nodes[recipient].node.update_partial_channel_config(&ids[1], &ctl.chan_ids, &upd);
 		}
 		pump(&nodes, &mut ctl, &mut log);
 		log.push("== second part".to_string());
@@ -472,10 +467,9 @@ fn main() {
 			report(KINDS[kind], point, s, &a, &b, true, &pa, &pb);
 		}
 		if kind == 1 {
-			// point 3: reload while only the first MPP part has arrived; point 4: the same with the recipient's
-			// per-channel accept_underpaying_htlcs re-applied after the cut in BOTH runs
-			for (point, reapply) in [(3u8, false), (4u8, true)] {
-				let o = Opts { reapply, cfg_probe: false };
+			// point 3: reload while only the first MPP part has arrived
+			for point in [3u8] {
+				let o = Opts { cfg_probe: false };
 				let a3 = panic::catch_unwind(AssertUnwindSafe(|| run(kind, s, 0, true, o)));
 				let pa3 = std::mem::take(&mut *LAST_PANIC.lock().unwrap());
 				let b3 = panic::catch_unwind(AssertUnwindSafe(|| run(kind, s, 3, true, o)));
@@ -485,7 +479,7 @@ fn main() {
 		}
 		if kind == 0 {
 			// the per-channel configuration itself
-			let o = Opts { reapply: false, cfg_probe: true };
+			let o = Opts { cfg_probe: true };
 			let ac = panic::catch_unwind(AssertUnwindSafe(|| run(kind, s, 0, false, o)));
 			let pac = std::mem::take(&mut *LAST_PANIC.lock().unwrap());
 			let bc = panic::catch_unwind(AssertUnwindSafe(|| run(kind, s, 2, false, o)));
